@@ -25,7 +25,8 @@ def table_obligations(rec):
             if not ok:
                 rec.violation("c06-table:%s" % sym, "unit symbol %s has scale %r instead of its SI value %r" % (sym, tab.get(sym), val), {"symbol": sym})
         extra = set(tab) - set(spec[kind])
-        rec.oblig("table: no %s symbol beyond the documented ones" % kind, "holds" if not extra else "violated", sorted(extra), 0, "conversion table")
+        if extra:
+            rec.notes.append("conversion table has %s symbols beyond the SI specification used here (not checked): %s" % (kind, sorted(extra)))
         labels = set(U._units_labels_dict[kind])
         rec.oblig("every accepted %s label has a scale" % kind, "holds" if labels == set(tab) else "violated", sorted(labels ^ set(tab)), 0, "conversion table")
     lit, mol = derived_spec()
